@@ -86,7 +86,7 @@ void post_oracles(WorldRun &wr, const Pool &pool, const Snapshot &before, ExecCt
     out.push_back(v);
   }
   check_invariants(pool, out, where);
-  if (wr.plan->deep && out.size() == first) check_history_independence(pool, out, where);
+  if (wr.plan->deep && out.size() == first && where[0] == 'o') check_history_independence(pool, out, where);  // real executions only
   Snapshot after = snapshot(pool, wr.plan->deep != 0);
   size_t before_c14 = out.size();
   compare_snapshots(before, after, c.out, out, where);
@@ -129,6 +129,37 @@ bool has_fatal(const Plan &plan, std::vector<Violation> &viol) {
   if (viol.size() > 8) viol.resize(8);
   return false;
 }
+
+#ifdef SIM_EXACT
+// Harness housekeeping in the exact flavour: repeated squaring (a = a * a,
+// a *= one of its own coefficients) doubles the size of the rationals with
+// every step; a spline whose coefficients have outgrown 48 limbs is retired so
+// that one run cannot take minutes. Done between operations, after the oracles.
+void retire_oversized(Pool &pool, std::vector<Pin> &pins) {
+  sim::Exempt e;
+  for (int i = 0; i < NP; i++) {
+    if (!pool.p[i]) continue;
+    bool big = std::visit(
+        [](const auto &sp) {
+          for (const auto &a : sp.getCoefficients())
+            for (const auto &x : a) {
+              const Val &v = x.raw();
+              if (boost::multiprecision::numerator(v).backend().size() > 48 ||
+                  boost::multiprecision::denominator(v).backend().size() > 48)
+                return true;
+            }
+          return false;
+        },
+        *pool.p[i]);
+    if (!big) continue;
+    pool.p[i].reset();
+    std::vector<Pin> keep;
+    for (const Pin &p : pins)
+      if (p.slot != SLOT_P0 + i) keep.push_back(p);
+    pins.swap(keep);
+  }
+}
+#endif
 
 bool sweepable(const Op &op) { return op.kind != OP_M_SEND && op.kind != OP_M_RECV; }
 
@@ -267,6 +298,9 @@ void run_op(WorldRun &wr, int task, Pool &pool, const Op &op, uint32_t idx, Task
   }
   log.obs.push_back(c.out.obs);
   log.status.push_back(c.out.status);
+#ifdef SIM_EXACT
+  retire_oversized(pool, log.pins);
+#endif
 }
 
 void task_body(void *arg, int id) {
